@@ -411,8 +411,8 @@ def c13_g(ctx: Ctx):
 @rule("C13-h")
 def c13_h(ctx: Ctx):
     """Per-job / per-entry loops are independent: nothing read in one iteration was computed in another."""
-    from .lints import per_item_loops
-    return per_item_loops(ctx, "C13-h", [('signac.sync:sync_projects', 'a job is synchronised with the handle / decision of the previous job'), ('signac.sync:_sync_job_workspaces', 'a file is copied to / from the path computed for the previous entry'), ('signac.sync:sync_jobs', 'state of a previous job leaks into this one')])
+    from .lints import per_item_loops, late_binding_in_loops
+    return late_binding_in_loops(ctx, "C13-h", ("signac.sync",)) + per_item_loops(ctx, "C13-h", [('signac.sync:sync_projects', 'a job is synchronised with the handle / decision of the previous job'), ('signac.sync:_sync_job_workspaces', 'a file is copied to / from the path computed for the previous entry'), ('signac.sync:sync_jobs', 'state of a previous job leaks into this one')])
 
 
 @rule("C13-i")
@@ -432,4 +432,66 @@ def c13_j(ctx: Ctx):
     return res
 
 
-RULES = [c13_a, c13_b, c13_c, c13_d, c13_e, c13_f, c13_g, c13_h, c13_i, c13_j]
+@rule("C13-k")
+def c13_k(ctx: Ctx):
+    """The proxy transfers what it is asked to transfer: (1) _FileModifyProxy.copy ends, on every path of a real run, in a copy primitive, the re-creation of a link,
+    or an exception - no 'already up to date' shortcut of its own (whether a differing file is overwritten was decided by the caller's comparison and strategy);
+    (2) a real copytree is shutil.copytree (which copies what directory links point to) - an os.walk re-implementation does not descend into linked directories."""
+    R = "C13-k"
+    out = []
+    cp = ctx.fn("signac.sync:_FileModifyProxy.copy")
+    cfg = ctx.cfg(cp)
+    transfer = set()
+    for n in cfg.stmt_nodes():
+        if n.kind != "stmt":
+            continue
+        for c in walk_no_nested(n.ast):
+            if isinstance(c, ast.Call):
+                e = common.ext_name(ctx, cp, c) or ""
+                nm = c.func.attr if isinstance(c.func, ast.Attribute) else (c.func.id if isinstance(c.func, ast.Name) else "")
+                if e.startswith("shutil.copy") or e in ("os.symlink", "os.link") or (isinstance(c.func, ast.Attribute) and canon(c.func.value) == "self" and nm in ("_copy", "_copy2", "_copy_p", "_copyfile")):
+                    transfer.add(n.id)
+    k = cp.qual + "|always-transfers"
+    if not transfer:
+        out.append(ctx.inc(R, cp, cp.node, "no copy primitive found in _FileModifyProxy.copy", construct=k))
+    else:
+        paths, trunc = cfg.paths_to(cfg.exit, kinds="n")
+        bad = None
+        for path, facts in paths:
+            if any(i in transfer for i in path):
+                continue
+            if ("self.dry_run", True) in facts:
+                continue
+            bad = (path, facts)
+        if trunc:
+            out.append(ctx.inc(R, cp, cp.node, "path enumeration truncated", construct=k))
+        elif bad:
+            cond = sorted(t for (t, p) in bad[1] if p and "dry_run" not in t)[:3]
+            out.append(ctx.viol(R, cp, cp.node, f"_FileModifyProxy.copy can return on a real run without copying anything (under {cond}): the caller has already decided that this file is "
+                                "to be transferred (source-only file, or a conflict the strategy answered with True - also when the files were compared by content and only their "
+                                "size / mtime signature agrees), so the destination silently keeps the old file", witness=cfg.describe_path(bad[0]), construct=k))
+        else:
+            out.append(ctx.ok(R, cp, cp.node, f"all {len(paths)} normal paths of a real run end in a copy primitive / link creation", construct=k))
+    ct = ctx.fn("signac.sync:_FileModifyProxy.copytree")
+    k2 = ct.qual + "|real-run-copytree"
+    walks = [c for c in body_nodes(ct) if isinstance(c, ast.Call) and common.ext_name(ctx, ct, c) == "os.walk"]
+    real = [c for c in body_nodes(ct) if isinstance(c, ast.Call) and common.ext_name(ctx, ct, c) == "shutil.copytree"]
+    flagged = False
+    for w in walks:
+        facts = common.facts_at(ctx, ct, w, "n")
+        fl = kwarg(w, "followlinks")
+        if ("self.dry_run", True) not in facts and not (fl is not None and ctx.fold(fl, ct) is True):
+            out.append(ctx.viol(R, ct, w, "a real (non dry-run) copytree walks the source with os.walk, which lists directory symlinks but does not descend into them, whereas shutil.copytree "
+                                "copies what they point to: a linked directory inside a job (shared input data) arrives empty in the destination", construct=k2))
+            flagged = True
+    if not flagged:
+        if real and all(("self.dry_run", False) in common.facts_at(ctx, ct, c, "n") or not walks for c in real):
+            out.append(ctx.ok(R, ct, real[0], "a real copytree is shutil.copytree with the proxy's copy function; only the dry run walks the tree itself", construct=k2))
+        elif real:
+            out.append(ctx.ok(R, ct, real[0], "the tree copy is shutil.copytree", construct=k2))
+        else:
+            out.append(ctx.inc(R, ct, ct.node, "no shutil.copytree in _FileModifyProxy.copytree", construct=k2))
+    return out
+
+
+RULES = [c13_a, c13_b, c13_c, c13_d, c13_e, c13_f, c13_g, c13_h, c13_i, c13_j, c13_k]
